@@ -97,6 +97,16 @@ func skipFact(t *Terminal) (skip bool, known bool) {
 	return false, false
 }
 
+func isEmptySliceValT(t *Terminal, v Val) bool {
+	if a, ok := v.(*AllocV); ok && a.Comment == "makeslice" {
+		if c, ok := t.St.heap["len:"+a.Key()]; ok {
+			return isConstInt(c.val, 0)
+		}
+		return false
+	}
+	return isEmptySliceVal(v)
+}
+
 func isEmptySliceVal(v Val) bool {
 	if isNilConst(v) {
 		return true
@@ -112,9 +122,6 @@ func isEmptySliceVal(v Val) bool {
 		if hi, ok := constInt(s.Hi); ok && hi == 0 {
 			return true
 		}
-	}
-	if a, ok := v.(*AllocV); ok && a.Comment == "makeslice" {
-		return true
 	}
 	return false
 }
@@ -345,13 +352,13 @@ func ruleC01(c *Ctx) {
 				case "Assertions":
 					if _, isApp := e.Val.(*AppendV); isApp {
 						appends = append(appends, e)
-					} else if isEmptySliceVal(e.Val) && len(appends) == 0 {
+					} else if isEmptySliceValT(t, e.Val) && len(appends) == 0 {
 						resetA = e
 					} else {
 						c.bad("C01-R2", fname, "store to Response.Assertions ["+label+"]", c.P.InstrPos(e.Instr), "Assertions overwritten with "+ap(e.Val))
 					}
 				case "EncryptedAssertions":
-					if isEmptySliceVal(e.Val) {
+					if isEmptySliceValT(t, e.Val) {
 						resetE = e
 					} else {
 						c.bad("C01-R2", fname, "store to Response.EncryptedAssertions ["+label+"]", c.P.InstrPos(e.Instr), "EncryptedAssertions overwritten with "+ap(e.Val))
@@ -433,6 +440,22 @@ func checkAppend(c *Ctx, t *Terminal, fname, label string, obj Val, ae *Event, h
 	if src == nil {
 		c.bad("C01-R2", fname, "appended assertion is decoded ["+label+"]", pos, "appended object was never decoded: "+ap(aobj))
 		return
+	}
+	// the decode target must be allocated inside the same generic iteration: encoding/xml merges into
+	// existing non-nil state, so a target shared across iterations yields hybrids nobody signed
+	fresh := false
+	if a, ok := aobj.(*AllocV); ok {
+		for _, it := range ae.Iters {
+			if strings.HasSuffix(it, "/iter") && strings.HasPrefix(a.Site, strings.TrimSuffix(it, "/iter")+"/") {
+				fresh = true
+			}
+		}
+	}
+	if fresh {
+		c.ok("C01-R2", fname, "decode target is fresh per assertion ["+label+"]", pos, "allocated inside the handler invocation")
+	} else {
+		c.bad("C01-R2", fname, "decode target is fresh per assertion ["+label+"]", pos,
+			"the Assertion object decoded into ("+ap(aobj)+") is not allocated inside the handler invocation: it is shared by all iterations and encoding/xml merges successive assertions into it")
 	}
 	want := "verified(copy(desc(raw)))"
 	if src.Prov == want {
